@@ -33,3 +33,17 @@ Theorem C06_toc_writer_balanced : forall d opts s t s1, Exp.fmt s = Exp.FX -> Fo
   Xhtml.X.toc_string d opts s = (Some t, s1) -> forall stk, Tok.run t (Tok.Txt, stk) = (Tok.Txt, stk).
 Proof. exact TocStr.toc_string_balanced. Qed.
 Print Assumptions C06_toc_writer_balanced.
+
+(* the functions the model uses for header counters are the generated (source) ones: update, reset, level, nav count *)
+Require TocTie.
+Theorem C06_model_counters_are_the_source : forall t k nonum,
+  exists en, exec 50 updateHeadersCount_body (call_env (TocTie.to_twin t) k nonum) = ONormal en /\
+             fields en = fields_of (TocTie.to_twin (Common.update_headers (St.runes (kname k)) nonum t)).
+Proof. exact TocTie.update_headers_is_generated. Qed.
+Theorem C06_model_levels_are_the_source : forall t k,
+  exists z, level_of (TocTie.to_twin t) k = Some z /\ Common.header_level t (St.runes (kname k)) = Some (Z.to_nat (z + 1)).
+Proof. exact TocTie.header_level_is_generated. Qed.
+Theorem C06_model_reset_is_the_source : forall t,
+  exists en, exec 50 resetCounters_body {| locals := []; fields := fields_of (TocTie.to_twin t) |} = ONormal en /\
+             fields en = fields_of (TocTie.to_twin (Common.reset_counters t)).
+Proof. exact TocTie.reset_counters_is_generated. Qed.
